@@ -32,6 +32,18 @@ def draw_case(rng: numpy.random.Generator, nq=None, nat=None, low_t: bool = True
     np_ = 3 * nat
     ntv = int(rng.integers(2, 6))
     nt = int(rng.integers(2, 6))
+    # shape coincidences and singleton grids are part of "all grids": an axis mix-up can hide behind, or only show on, equal extents
+    u = rng.random()
+    if u < 0.12:
+        nt = ntv
+    elif u < 0.20 and np_ <= 9:
+        nq = np_
+    elif u < 0.26:
+        nt = ntv = nq
+    elif u < 0.32:
+        nt = 1
+    elif u < 0.38:
+        ntv = 1
     v = numpy.sort(rng.uniform(50.0, 2000.0, ntv))[::-1].copy()
     # temperature grid: T >= 0, includes 0 often, and (low_t) values down to 0.5 K
     t = numpy.sort(rng.uniform(20.0, 3000.0, nt))
